@@ -56,18 +56,54 @@ package snapshot
 //@   ensures[C09] removeTried[dir]
 
 // ---- C08: mounts are handed out only for a chain that passed the availability check ----
-// (checkAvailability fans the per-layer checks out to goroutines; its result is assumed to mean what it says)
-//@ func (o *snapshotter) checkAvailability
+// checkAvailability walks the parent chain of the key and fans the per-layer checks out to an errgroup. Its body is
+// verified: it answers true only when the group's Wait returned nil (availChecked[key]: ghost effect of that Wait, the
+// library semantics "Wait returns the first non-nil error of the functions given to Go" is the assumption), no metadata
+// lookup of the chain failed, every remote snapshot of the chain handed one check to the group (chkSpawned), and a check
+// task answers nil only if the backend's Check of that snapshot's mountpoint, with its labels, did (chkOK).
+//@ ghost egKey string quiet
+//@ ghost chkSpawned int quiet
+//@ ghost chkOK map[string]bool
+//@ func golang.org/x/sync/errgroup.WithContext
+//@   trusted
+//@   modifies nothing
+//@   ensures result0 != nil && result1 != nil
+//@ func (g *golang.org/x/sync/errgroup.Group) Go
+//@   trusted
+//@   deferred
+//@   modifies chkSpawned
+//@   ensures chkSpawned == old(chkSpawned) + 1
+//@ func (g *golang.org/x/sync/errgroup.Group) Wait
 //@   trusted
 //@   modifies availChecked[*]
-//@   ensures result ==> availChecked[key]
-//@   ensures forall k string :: k != key ==> availChecked[k] == old(availChecked[k])
+//@   ensures (result == nil ==> availChecked[egKey]) && (result != nil ==> availChecked[egKey] == old(availChecked[egKey]))
+//@   ensures forall k string :: k != egKey ==> availChecked[k] == old(availChecked[k])
+//@ func interface snapshot.FileSystem.Check
+//@   modifies chkOK[*]
+//@   ensures (result == nil ==> chkOK[a1]) && (forall k string :: k != a1 ==> chkOK[k] == old(chkOK[k]))
+//@   params a0, a1, a2
+//@ func (o *snapshotter) checkAvailability$1
+//@   props C08
+//@   requires o != nil
+//@   ensures[C08] result == nil ==> chkOK[mp]
+//@ func (o *snapshotter) checkAvailability
+//@   props C08
+//@   requires o.ms != nil
+//@   modifies availChecked[*], egKey, chkSpawned, txWritable
+//@   ghostentry egKey = key
+//@   loop 0 invariant[C08] egKey == key && (forall k string :: k != key ==> availChecked[k] == old(availChecked[k])) && eg != nil
+//@   loop 0 step[C08] (remoteLabel in info.Labels) ==> chkSpawned == prev(chkSpawned) + 1
+// (the group is waited for only after the whole chain, down to the base snapshot, was walked)
+//@   assert[C08] before "if err := eg.Wait(); err != nil {" : cKey == ""
+//@   ensures[C08] result ==> availChecked[key]
+//@   ensures[C08] forall k string :: k != key ==> availChecked[k] == old(availChecked[k])
 //@ uf upath(string, string) string
 //@ func (o *snapshotter) upperPath
 //@   trusted
 //@   ensures result == upath(o.root, id)
 //@ func (o *snapshotter) mounts
 //@   props C08
+//@   requires o.ms != nil
 //@   ensures[C08] result1 == nil && checkKey != "" ==> availChecked[checkKey]
 //@   ensures[C08] remoteCommitTried == old(remoteCommitTried) && fsMountsOK == old(fsMountsOK)
 //@   loop 0 invariant[C08] remoteCommitTried == old(remoteCommitTried) && fsMountsOK == old(fsMountsOK)
@@ -79,6 +115,10 @@ package snapshot
 //@   props C08
 //@   requires o.ms != nil
 //@   ensures[C08] err != nil ==> cleanups == old(cleanups)
+// ... and the backend is asked to unmount nothing before the removal is committed: a removal the metadata store refuses
+// (a snapshot that still has children) or that fails to commit leaves every backend mount alone
+//@   assert[C08] before "return t.Commit()" : forall k string :: unmountTried[k] == old(unmountTried[k])
+//@   ensures[C08] err != nil ==> (forall k string :: unmountTried[k] == old(unmountTried[k]))
 
 // ---- C09: the snapshot directory is in place before its metadata record becomes durable; a failed creation reclaims it ----
 // (the storage package reads the option functions it is given; it does not replace them)
@@ -128,9 +168,24 @@ package snapshot
 //@   trusted
 //@   modifies txWritable
 //@   ensures txWritable == writable && (result2 == nil ==> result1 != nil && result0 != nil)
-//@ func (o *snapshotter) getCleanupDirectories
+// The scan itself is verified: every directory name found under snapshots/ is looked at once, in order; for the garbage
+// scan (cleanupCommitted == false) a name is reported exactly when the metadata store has no snapshot with that ID, for the
+// shutdown scan exactly when it is in the set of remote snapshot IDs; what is reported is that directory's path under
+// snapshots/ and nothing reported earlier is dropped or rewritten. (pjoin: uninterpreted path join of two elements.)
+//@ uf pjoin(string, string) string
+//@ func path/filepath.Join
 //@   trusted
+//@   modifies nothing
+//@   ensures len(elem) == 2 ==> result == pjoin(elem[0], elem[1])
+//@ func (o *snapshotter) getCleanupDirectories
+//@   props C08
 //@   requires[C08] txWritable
+//@   loop 1 invariant[C08] snapshotDir == pjoin(o.root, "snapshots")
+//@   loop 1 step[C08] !cleanupCommitted && (d in ids) ==> len(cleanup) == prev(len(cleanup))
+//@   loop 1 step[C08] !cleanupCommitted && !(d in ids) ==> len(cleanup) == prev(len(cleanup)) + 1 && cleanup[len(cleanup)-1] == pjoin(snapshotDir, d)
+//@   loop 1 step[C08] cleanupCommitted && !(d in remoteSnapshotNames) ==> len(cleanup) == prev(len(cleanup))
+//@   loop 1 step[C08] cleanupCommitted && (d in remoteSnapshotNames) ==> len(cleanup) == prev(len(cleanup)) + 1 && cleanup[len(cleanup)-1] == pjoin(snapshotDir, d)
+//@   loop 1 step[C08] forall j int :: 0 <= j && j < prev(len(cleanup)) ==> cleanup[j] == prev(cleanup[j])
 //@ func (o *snapshotter) cleanupDirectories
 //@   props C08
 //@   requires o.ms != nil
